@@ -793,3 +793,394 @@ Proof.
   eapply parse_of_Parses; [|exact P|unfold fuel_of; lia].
   pose proof (start_pr W R arity e bs [] Hok) as S. now rewrite app_nil_r in S.
 Qed.
+
+(* ================================================================================================================
+   Quantifiers: the case left open in [main]. *)
+From Coq Require Import FinFun.
+Section Quant.
+  Variable W : wnames.
+  Variable R : rtables.
+  Variable arity : N -> nat.
+  Hypothesis HN : names_ok W R arity.
+
+  Definition decls_of (vs : list (N * N)) : list (N * N) := map (fun p => (nmT W (snd p), nmV W (fst p))) vs.
+
+  Lemma pvars_pr : forall vs r, vs <> [] -> pvars (pr_vars W vs ++ TRp :: r) = Some (decls_of vs, r).
+  Proof.
+    unfold pr_vars. induction vs as [|[v t] vs IHvs]; intros r Hne; [congruence|].
+    destruct vs as [|[v' t'] vs].
+    - reflexivity.
+    - change (join TComma (map (fun p => [TName (nmT W (snd p)); TName (nmV W (fst p))]) ((v, t) :: (v', t') :: vs)))
+        with ([TName (nmT W t); TName (nmV W v)] ++ TComma ::
+              join TComma (map (fun p => [TName (nmT W (snd p)); TName (nmV W (fst p))]) ((v', t') :: vs))).
+      cbn [app].
+      cbn [pvars]. rewrite IHvs by congruence. reflexivity.
+  Qed.
+
+  Lemma decl_types_of vs : decl_types R (decls_of vs) = Some (rscope W vs).
+  Proof.
+    induction vs as [|[v t] vs IHvs]; [reflexivity|]. cbn [decls_of map decl_types fst snd].
+    fold (decls_of vs). rewrite (h_ty _ _ _ HN), IHvs. reflexivity.
+  Qed.
+
+  Lemma dict_set_fresh d k v : ~ In k (map fst d) -> dict_set d k v = d ++ [(k, v)].
+  Proof.
+    induction d as [|[k' v'] d IHd]; intros Hni; [reflexivity|]. cbn [dict_set].
+    destruct (N.eqb_spec k k') as [->|Hne]; [exfalso; apply Hni; left; reflexivity|].
+    rewrite IHd; [reflexivity|]. intros Hin. apply Hni. right. exact Hin.
+  Qed.
+  Lemma dict_fold l : forall acc, NoDup (map fst acc ++ map fst l) ->
+    fold_left (fun d p => dict_set d (fst p) (snd p)) l acc = acc ++ l.
+  Proof.
+    induction l as [|[k v] l IHl]; intros acc Hnd; [now rewrite app_nil_r|].
+    cbn [fold_left fst snd]. rewrite dict_set_fresh.
+    - rewrite IHl; [now rewrite <- app_assoc|].
+      rewrite map_app. cbn [map fst]. rewrite <- app_assoc. exact Hnd.
+    - cbn [map fst] in Hnd. apply NoDup_remove_2 in Hnd. intros Hin. apply Hnd. apply in_or_app. left. exact Hin.
+  Qed.
+  Lemma nodupN_NoDup l : nodupN l = true -> NoDup l.
+  Proof.
+    induction l as [|x l IHl]; [constructor|]. cbn [nodupN]. intros H. apply andb_prop in H. destruct H as [H1 H2].
+    constructor; [|apply IHl; exact H2].
+    intros Hin. apply negb_true_iff in H1. unfold memN in H1.
+    assert (existsb (N.eqb x) l = true) by (apply existsb_exists; exists x; split; [exact Hin|apply N.eqb_refl]). congruence.
+  Qed.
+  Lemma dict_of_rscope vs : nodupN (map fst vs) = true -> dict_of (rscope W vs) = rscope W vs.
+  Proof.
+    intros H. unfold dict_of. rewrite dict_fold; [reflexivity|]. cbn [map app].
+    unfold rscope. rewrite map_map. cbn [fst].
+    apply nodupN_NoDup in H. rewrite <- (map_map fst (nmV W)).
+    apply FinFun.Injective_map_NoDup; [|exact H]. intros a b. apply (nmV_inj W R arity HN).
+  Qed.
+  Lemma quant_vars vs : map (fun p => (varOf R (fst p), snd p)) (rscope W vs) = vs.
+  Proof.
+    unfold rscope. rewrite map_map. cbn [fst snd]. induction vs as [|[v t] vs IHvs]; [reflexivity|].
+    cbn [map fst snd]. rewrite (h_var _ _ _ HN), IHvs. reflexivity.
+  Qed.
+
+  Ltac st := let n := fresh "n" in let Hn := fresh "Hn" in
+    intros n Hn; destruct n as [|n]; [exfalso; lia|]; cbn [go].
+
+  Lemma P_body_end sc b ts a ta r acc :
+    Parses R SImp sc b ts a ta (TSemi :: TRb :: r) -> ParsesL R (SBody acc) sc (S b) ts (rev (a :: acc)) r.
+  Proof. intros H1; st. rewrite H1 by lia. reflexivity. Qed.
+  Lemma P_quant sc (ex : bool) b r decls r1 d body r2 :
+    pvars r = Some (decls, TLb :: r1) -> decl_types R decls = Some d ->
+    ParsesL R (SBody []) (dict_of d ++ sc) b r1 body r2 ->
+    Parses R SRel sc (S b) ((if ex then TExists else TForall) :: TLp :: r) (quant R ex (dict_of d) body) TB r2.
+  Proof. intros Hp Hd H; st. destruct ex; rewrite Hp, Hd, H by lia; reflexivity. Qed.
+  Lemma P_not_skip_q sc (ex : bool) b ts a ta r :
+    Parses R SRel sc b ((if ex then TExists else TForall) :: ts) a ta r ->
+    Parses R SNot sc (S b) ((if ex then TExists else TForall) :: ts) a ta r.
+  Proof. intros H; st. destruct ex; apply H; lia. Qed.
+
+  Lemma quant_case (ex : bool) vs a bs :
+    anml_ok R arity bs (qnode ex vs a) = true -> PU W R (vs ++ bs) a -> PU W R bs (qnode ex vs a).
+  Proof.
+    intros Hok Pa rest Hr.
+    assert (Hok' : negb (match vs with [] => true | _ => false end) && nodupN (map fst vs) && anml_ok R arity (vs ++ bs) a = true)
+      by (destruct ex; exact Hok).
+    apply andb_prop in Hok'. destruct Hok' as [Hok' Hoka]. apply andb_prop in Hok'. destruct Hok' as [Hne Hnd].
+    assert (Hvs : vs <> []) by (destruct vs; [discriminate|congruence]).
+    assert (E : pr W (qnode ex vs a) ++ rest =
+                TLp :: (if ex then TExists else TForall) :: TLp :: (pr_vars W vs ++ TRp :: TLb :: (pr W a ++ TSemi :: TRb :: TRp :: rest))).
+    { destruct ex; cbn [qnode pr app]; do 3 f_equal; repeat (rewrite <- app_assoc; cbn [app]); reflexivity. }
+    assert (L : length (pr W (qnode ex vs a)) = 8 + length (pr_vars W vs) + length (pr W a)).
+    { destruct ex; cbn [qnode pr length]; rewrite !app_length; cbn [length]; lia. }
+    assert (Nn : norm (qnode ex vs a) = quant R ex (dict_of (rscope W vs)) [norm a]).
+    { unfold quant. rewrite (dict_of_rscope vs Hnd), quant_vars. destruct ex; reflexivity. }
+    assert (T : tier_of (qnode ex vs a) = TB) by (destruct ex; reflexivity).
+    rewrite E, L, Nn, T.
+    eapply Parses_mono.
+    - apply P_paren. apply imp_of_not. apply P_not_skip_q.
+      eapply P_quant; [apply pvars_pr; exact Hvs|apply decl_types_of|].
+      change [norm a] with (rev [norm a]).
+      apply P_body_end with (ta := tier_of a).
+      rewrite (dict_of_rscope vs Hnd). unfold rscope in *. rewrite <- map_app.
+      apply up_imp; [eapply start_pr; exact Hoka|apply Pa; reflexivity|reflexivity].
+    - lia.
+  Qed.
+End Quant.
+
+Lemma frag_true : forall e, frag true e = true.
+Proof.
+  induction e using expr_ind'; cbn [frag andb]; try reflexivity;
+    try (apply forallb_forall; rewrite Forall_forall in H; exact H);
+    try assumption; try (rewrite IHe1, IHe2; reflexivity).
+Qed.
+
+(* the whole fragment *)
+Theorem parse_print W R arity (HN : names_ok W R arity) e bs :
+  anml_ok R arity bs e = true -> parse R (rscope W bs) (pr W e) = Some (norm e).
+Proof.
+  intros Hok.
+  assert (P := main W R arity HN true (fun _ => quant_case W R arity HN) e bs (frag_true e) Hok [] eq_refl).
+  rewrite app_nil_r in P.
+  eapply parse_of_Parses; [|exact P|unfold fuel_of; lia].
+  pose proof (start_pr W R arity e bs [] Hok) as S. now rewrite app_nil_r in S.
+Qed.
+
+(* ================================================================================================================
+   The normal form has the value of the original. *)
+Require Import UPV.Core.Eval UPV.Proofs.Eval_lemmas UPV.Proofs.Simplify_sound.
+Section EvalNorm.
+  Variable R : rtables.
+  Variable arity : N -> nat.
+
+  Lemma q0r (q : Qc) : (q + zq 0 = q)%Qc. Proof. change (zq 0) with 0%Qc. ring. Qed.
+  Lemma q1r (q : Qc) : (q * zq 1 = q)%Qc. Proof. change (zq 1) with 1%Qc. ring. Qed.
+
+  Lemma and_chain sc I : forall l acc,
+    as_bool (eval sc (fold_left (fun a b => EAnd [a; b]) l acc) I) =
+    match as_bool (eval sc acc I), ebools sc I l with
+    | Some x, Some xs => Some (x && forallb (fun b => b) xs)
+    | _, _ => None
+    end.
+  Proof.
+    induction l as [|y l IHl]; intros acc.
+    - cbn. destruct (as_bool (eval sc acc I)); [f_equal; symmetry; apply andb_true_r|reflexivity].
+    - cbn [fold_left]. rewrite IHl. rewrite eval_EAnd. cbn [ebools].
+      destruct (as_bool (eval sc acc I)); [|reflexivity].
+      destruct (as_bool (eval sc y I)); [|reflexivity].
+      destruct (ebools sc I l); [|reflexivity]. cbn. f_equal. cbn. rewrite ?andb_true_r. now rewrite andb_assoc.
+  Qed.
+  Lemma and_head : forall l acc, l <> [] -> exists a b, fold_left (fun a b => EAnd [a; b]) l acc = EAnd [a; b].
+  Proof.
+    induction l as [|y l IHl]; intros acc Hne; [congruence|]. cbn [fold_left].
+    destruct l as [|z l]; [cbn; eauto|apply IHl; congruence].
+  Qed.
+
+  Lemma or_chain sc I : forall l acc,
+    as_bool (eval sc (fold_left (fun a b => EOr [a; b]) l acc) I) =
+    match as_bool (eval sc acc I), ebools sc I l with
+    | Some x, Some xs => Some (x || existsb (fun b => b) xs)
+    | _, _ => None
+    end.
+  Proof.
+    induction l as [|y l IHl]; intros acc.
+    - cbn. destruct (as_bool (eval sc acc I)); [f_equal; symmetry; apply orb_false_r|reflexivity].
+    - cbn [fold_left]. rewrite IHl. rewrite eval_EOr. cbn [ebools].
+      destruct (as_bool (eval sc acc I)); [|reflexivity].
+      destruct (as_bool (eval sc y I)); [|reflexivity].
+      destruct (ebools sc I l); [|reflexivity]. cbn. f_equal. cbn. rewrite ?orb_false_r. now rewrite orb_assoc.
+  Qed.
+  Lemma or_head : forall l acc, l <> [] -> exists a b, fold_left (fun a b => EOr [a; b]) l acc = EOr [a; b].
+  Proof.
+    induction l as [|y l IHl]; intros acc Hne; [congruence|]. cbn [fold_left].
+    destruct l as [|z l]; [cbn; eauto|apply IHl; congruence].
+  Qed.
+
+  Lemma plus_chain sc I : forall l acc,
+    as_num (eval sc (fold_left (fun a b => EPlus [a; b]) l acc) I) =
+    match as_num (eval sc acc I), enums sc I l with
+    | Some x, Some xs => Some ((x + fold_right Qcplus (zq 0) xs)%Qc)
+    | _, _ => None
+    end.
+  Proof.
+    induction l as [|y l IHl]; intros acc.
+    - cbn. destruct (as_num (eval sc acc I)); [f_equal; symmetry; apply q0r|reflexivity].
+    - cbn [fold_left]. rewrite IHl. rewrite eval_EPlus. cbn [enums].
+      destruct (as_num (eval sc acc I)); [|reflexivity].
+      destruct (as_num (eval sc y I)); [|reflexivity].
+      destruct (enums sc I l); [|reflexivity]. cbn. f_equal. change (zq 0) with 0%Qc. ring.
+  Qed.
+  Lemma plus_head : forall l acc, l <> [] -> exists a b, fold_left (fun a b => EPlus [a; b]) l acc = EPlus [a; b].
+  Proof.
+    induction l as [|y l IHl]; intros acc Hne; [congruence|]. cbn [fold_left].
+    destruct l as [|z l]; [cbn; eauto|apply IHl; congruence].
+  Qed.
+
+  Lemma times_chain sc I : forall l acc,
+    as_num (eval sc (fold_left (fun a b => ETimes [a; b]) l acc) I) =
+    match as_num (eval sc acc I), enums sc I l with
+    | Some x, Some xs => Some ((x * fold_right Qcmult (zq 1) xs)%Qc)
+    | _, _ => None
+    end.
+  Proof.
+    induction l as [|y l IHl]; intros acc.
+    - cbn. destruct (as_num (eval sc acc I)); [f_equal; symmetry; apply q1r|reflexivity].
+    - cbn [fold_left]. rewrite IHl. rewrite eval_ETimes. cbn [enums].
+      destruct (as_num (eval sc acc I)); [|reflexivity].
+      destruct (as_num (eval sc y I)); [|reflexivity].
+      destruct (enums sc I l); [|reflexivity]. cbn. f_equal. change (zq 1) with 1%Qc. ring.
+  Qed.
+  Lemma times_head : forall l acc, l <> [] -> exists a b, fold_left (fun a b => ETimes [a; b]) l acc = ETimes [a; b].
+  Proof.
+    induction l as [|y l IHl]; intros acc Hne; [congruence|]. cbn [fold_left].
+    destruct l as [|z l]; [cbn; eauto|apply IHl; congruence].
+  Qed.
+
+  Lemma eval_norm_int sc z I : eval sc (norm_int z) I = Some (VNum (zq z)).
+  Proof.
+    unfold norm_int. destruct (z <? 0)%Z; [|reflexivity].
+    rewrite eval_ETimes. cbn. f_equal. f_equal. rewrite q1r, <- zq_mul. f_equal. lia.
+  Qed.
+
+  Lemma qc_num_den (q : Qc) : (zq (Qnum (this q)) / zq (Zpos (Qden (this q))) = q)%Qc.
+  Proof.
+    apply Qc_is_canon. destruct q as [[n d] Hc]. unfold Qcdiv, Qcmult, Qcinv, zq, Q2Qc. cbn [this Qnum Qden].
+    rewrite !Qred_correct. unfold Qeq, Qmult, Qinv, inject_Z. cbn. lia.
+  Qed.
+  Lemma zq_pos_not0 d : qc_is0 (zq (Zpos d)) = false.
+  Proof.
+    destruct (qc_is0 (zq (Zpos d))) eqn:E; [|reflexivity].
+    apply qc_is0_spec in E. apply zq_inj in E. discriminate.
+  Qed.
+
+  Definition notnot (a : expr) : bool := match a with ENot _ => true | _ => false end.
+  Lemma two_plus' (l : list expr) : Nat.leb 2 (length l) = true -> exists x y l', l = x :: y :: l'.
+  Proof. destruct l as [|x [|y l']]; cbn; try discriminate. eauto. Qed.
+  Lemma norm_notnot a bs : anml_ok R arity bs a = true -> notnot a = false -> notnot (norm a) = false.
+  Proof.
+    destruct a; cbn [anml_ok notnot norm]; try reflexivity; try discriminate; intros Hok _.
+    - unfold norm_int. destruct (z <? 0)%Z; reflexivity.
+    - apply andb_prop in Hok. destruct Hok as [_ Hl]. destruct (two_plus' l Hl) as (x & y & l' & ->).
+      cbn [map chain]. destruct (and_head (norm y :: map norm l') (norm x) ltac:(discriminate)) as (a & b & ->). reflexivity.
+    - apply andb_prop in Hok. destruct Hok as [_ Hl]. destruct (two_plus' l Hl) as (x & y & l' & ->).
+      cbn [map chain]. destruct (or_head (norm y :: map norm l') (norm x) ltac:(discriminate)) as (a & b & ->). reflexivity.
+    - apply andb_prop in Hok. destruct Hok as [_ Hl]. destruct (two_plus' l Hl) as (x & y & l' & ->).
+      cbn [map chain]. destruct (plus_head (norm y :: map norm l') (norm x) ltac:(discriminate)) as (a & b & ->). reflexivity.
+    - apply andb_prop in Hok. destruct Hok as [_ Hl]. destruct (two_plus' l Hl) as (x & y & l' & ->).
+      cbn [map chain]. destruct (times_head (norm y :: map norm l') (norm x) ltac:(discriminate)) as (a & b & ->). reflexivity.
+  Qed.
+
+  Definition EV (e : expr) : Prop :=
+    forall sc bs I, anml_ok R arity bs e = true -> nodneg e = true -> eval sc (norm e) I = eval sc e I.
+
+  Lemma ebools_norm sc bs I l : Forall EV l -> forallb (anml_ok R arity bs) l = true -> forallb nodneg l = true ->
+    ebools sc I (map norm l) = ebools sc I l.
+  Proof.
+    induction 1 as [|x l Hx _ IHl]; intros Ho Hn; [reflexivity|]. cbn [forallb] in Ho, Hn.
+    apply andb_prop in Ho. destruct Ho as [Hox Hol]. apply andb_prop in Hn. destruct Hn as [Hnx Hnl].
+    cbn [map ebools]. rewrite (Hx sc bs I Hox Hnx), IHl by assumption. reflexivity.
+  Qed.
+  Lemma enums_norm sc bs I l : Forall EV l -> forallb (anml_ok R arity bs) l = true -> forallb nodneg l = true ->
+    enums sc I (map norm l) = enums sc I l.
+  Proof.
+    induction 1 as [|x l Hx _ IHl]; intros Ho Hn; [reflexivity|]. cbn [forallb] in Ho, Hn.
+    apply andb_prop in Ho. destruct Ho as [Hox Hol]. apply andb_prop in Hn. destruct Hn as [Hnx Hnl].
+    cbn [map enums]. rewrite (Hx sc bs I Hox Hnx), IHl by assumption. reflexivity.
+  Qed.
+  Lemma evals_norm sc bs I l : Forall EV l -> forallb (anml_ok R arity bs) l = true -> forallb nodneg l = true ->
+    evals sc I (map norm l) = evals sc I l.
+  Proof.
+    induction 1 as [|x l Hx _ IHl]; intros Ho Hn; [reflexivity|]. cbn [forallb] in Ho, Hn.
+    apply andb_prop in Ho. destruct Ho as [Hox Hol]. apply andb_prop in Hn. destruct Hn as [Hnx Hnl].
+    cbn [map evals]. rewrite (Hx sc bs I Hox Hnx), IHl by assumption. reflexivity.
+  Qed.
+
+  Theorem norm_eval : forall e, EV e.
+  Proof.
+    induction e using expr_ind'; intros sc bs I Hok Hn; cbn [anml_ok] in Hok; cbn [nodneg] in Hn; try discriminate;
+      try reflexivity.
+    - (* EInt *) apply eval_norm_int.
+    - (* EReal *) cbn [norm]. rewrite eval_EDiv, eval_norm_int. cbn [as_num eval]. rewrite zq_pos_not0, qc_num_den. reflexivity.
+    - (* EFluent *) apply andb_prop in Hok. destruct Hok as [Hok _]. cbn [norm]. rewrite !eval_EFluent.
+      rewrite (evals_norm sc bs I args H Hok Hn). reflexivity.
+    - (* EAnd *) apply andb_prop in Hok. destruct Hok as [Hok Hl]. destruct (two_plus' l Hl) as (x & y & l' & ->).
+      cbn [norm map chain].
+      destruct (and_head (norm y :: map norm l') (norm x) ltac:(discriminate)) as (a & b & E).
+      assert (F : forall X, eval sc (EAnd X) I = match as_bool (eval sc (EAnd X) I) with Some v => Some (VBool v) | None => None end)
+        by (intros X; rewrite eval_EAnd; destruct (ebools sc I X); reflexivity).
+      rewrite E, F, <- E, and_chain, (F (x :: y :: l')), eval_EAnd.
+      rewrite <- (ebools_norm sc bs I (x :: y :: l') H Hok Hn). cbn [map ebools].
+      destruct (as_bool (eval sc (norm x) I)); [|reflexivity].
+      destruct (as_bool (eval sc (norm y) I)); [|reflexivity].
+      destruct (ebools sc I (map norm l')); reflexivity.
+    - (* EOr *) apply andb_prop in Hok. destruct Hok as [Hok Hl]. destruct (two_plus' l Hl) as (x & y & l' & ->).
+      cbn [norm map chain].
+      destruct (or_head (norm y :: map norm l') (norm x) ltac:(discriminate)) as (a & b & E).
+      assert (F : forall X, eval sc (EOr X) I = match as_bool (eval sc (EOr X) I) with Some v => Some (VBool v) | None => None end)
+        by (intros X; rewrite eval_EOr; destruct (ebools sc I X); reflexivity).
+      rewrite E, F, <- E, or_chain, (F (x :: y :: l')), eval_EOr.
+      rewrite <- (ebools_norm sc bs I (x :: y :: l') H Hok Hn). cbn [map ebools].
+      destruct (as_bool (eval sc (norm x) I)); [|reflexivity].
+      destruct (as_bool (eval sc (norm y) I)); [|reflexivity].
+      destruct (ebools sc I (map norm l')); reflexivity.
+    - (* ENot *) apply andb_prop in Hn. destruct Hn as [Hnn Hn]. cbn [norm].
+      assert (N0 : notnot (norm e) = false) by (apply (norm_notnot e bs Hok); destruct e; cbn in *; congruence).
+      replace (mkNot (norm e)) with (ENot (norm e)) by (destruct (norm e); cbn in N0; try reflexivity; discriminate).
+      rewrite !eval_ENot, (IHe sc bs I Hok Hn). reflexivity.
+    - (* EImplies *) apply andb_prop in Hok. destruct Hok as [Ha Hb]. apply andb_prop in Hn. destruct Hn as [Na Nb].
+      cbn [norm]. rewrite !eval_EImplies, (IHe1 sc bs I Ha Na), (IHe2 sc bs I Hb Nb). reflexivity.
+    - (* EIff *) apply andb_prop in Hok. destruct Hok as [Ha Hb]. apply andb_prop in Hn. destruct Hn as [Na Nb].
+      cbn [norm]. rewrite eval_EAnd, eval_EIff. cbn [ebools]. rewrite !eval_EImplies, (IHe1 sc bs I Ha Na), (IHe2 sc bs I Hb Nb).
+      destruct (as_bool (eval sc e1 I)) as [[]|]; destruct (as_bool (eval sc e2 I)) as [[]|]; reflexivity.
+    - (* EExists *) apply andb_prop in Hok. destruct Hok as [_ Hok]. cbn [norm]. rewrite !eval_EExists.
+      rewrite (map_ext _ _ (fun J => f_equal as_bool (IHe sc (vs ++ bs) J Hok Hn))). reflexivity.
+    - (* EForall *) apply andb_prop in Hok. destruct Hok as [_ Hok]. cbn [norm]. rewrite !eval_EForall.
+      rewrite (map_ext _ _ (fun J => f_equal as_bool (IHe sc (vs ++ bs) J Hok Hn))). reflexivity.
+    - (* EPlus *) apply andb_prop in Hok. destruct Hok as [Hok Hl]. apply andb_prop in Hok. destruct Hok as [Hok _].
+      destruct (two_plus' l Hl) as (x & y & l' & ->). cbn [norm map chain].
+      destruct (plus_head (norm y :: map norm l') (norm x) ltac:(discriminate)) as (a & b & E).
+      assert (F : forall X, eval sc (EPlus X) I = match as_num (eval sc (EPlus X) I) with Some v => Some (VNum v) | None => None end)
+        by (intros X; rewrite eval_EPlus; destruct (enums sc I X); reflexivity).
+      rewrite E, F, <- E, plus_chain, (F (x :: y :: l')), eval_EPlus.
+      rewrite <- (enums_norm sc bs I (x :: y :: l') H Hok Hn). cbn [map enums].
+      destruct (as_num (eval sc (norm x) I)); [|reflexivity].
+      destruct (as_num (eval sc (norm y) I)); [|reflexivity].
+      destruct (enums sc I (map norm l')); reflexivity.
+    - (* EMinus *) apply andb_prop in Hok. destruct Hok as [Hok _]. apply andb_prop in Hok. destruct Hok as [Hok _].
+      apply andb_prop in Hok. destruct Hok as [Ha Hb].
+      apply andb_prop in Hn. destruct Hn as [Na Nb].
+      cbn [norm]. rewrite !eval_EMinus, (IHe1 sc bs I Ha Na), (IHe2 sc bs I Hb Nb). reflexivity.
+    - (* ETimes *) apply andb_prop in Hok. destruct Hok as [Hok Hl]. apply andb_prop in Hok. destruct Hok as [Hok _].
+      destruct (two_plus' l Hl) as (x & y & l' & ->). cbn [norm map chain].
+      destruct (times_head (norm y :: map norm l') (norm x) ltac:(discriminate)) as (a & b & E).
+      assert (F : forall X, eval sc (ETimes X) I = match as_num (eval sc (ETimes X) I) with Some v => Some (VNum v) | None => None end)
+        by (intros X; rewrite eval_ETimes; destruct (enums sc I X); reflexivity).
+      rewrite E, F, <- E, times_chain, (F (x :: y :: l')), eval_ETimes.
+      rewrite <- (enums_norm sc bs I (x :: y :: l') H Hok Hn). cbn [map enums].
+      destruct (as_num (eval sc (norm x) I)); [|reflexivity].
+      destruct (as_num (eval sc (norm y) I)); [|reflexivity].
+      destruct (enums sc I (map norm l')); reflexivity.
+    - (* EDiv *) apply andb_prop in Hok. destruct Hok as [Hok _]. apply andb_prop in Hok. destruct Hok as [Hok _].
+      apply andb_prop in Hok. destruct Hok as [Ha Hb]. apply andb_prop in Hn. destruct Hn as [Na Nb].
+      cbn [norm]. rewrite !eval_EDiv, (IHe1 sc bs I Ha Na), (IHe2 sc bs I Hb Nb). reflexivity.
+    - (* ELe *) apply andb_prop in Hok. destruct Hok as [Hok _]. apply andb_prop in Hok. destruct Hok as [Hok _].
+      apply andb_prop in Hok. destruct Hok as [Ha Hb]. apply andb_prop in Hn. destruct Hn as [Na Nb].
+      cbn [norm]. rewrite !eval_ELe, (IHe1 sc bs I Ha Na), (IHe2 sc bs I Hb Nb). reflexivity.
+    - (* ELt *) apply andb_prop in Hok. destruct Hok as [Hok _]. apply andb_prop in Hok. destruct Hok as [Hok _].
+      apply andb_prop in Hok. destruct Hok as [Ha Hb]. apply andb_prop in Hn. destruct Hn as [Na Nb].
+      cbn [norm]. rewrite !eval_ELt, (IHe1 sc bs I Ha Na), (IHe2 sc bs I Hb Nb). reflexivity.
+    - (* EEquals *) apply andb_prop in Hok. destruct Hok as [Hok _]. apply andb_prop in Hok. destruct Hok as [Hok _].
+      apply andb_prop in Hok. destruct Hok as [Hok _].
+      apply andb_prop in Hok. destruct Hok as [Ha Hb]. apply andb_prop in Hn. destruct Hn as [Na Nb].
+      cbn [norm]. rewrite !eval_EEquals, (IHe1 sc bs I Ha Na), (IHe2 sc bs I Hb Nb). reflexivity.
+  Qed.
+End EvalNorm.
+
+(* ================================================================================================================
+   A concrete naming that satisfies [names_ok]: identifiers 4k (fluents), 4k+1 (parameters), 4k+2 (objects),
+   4k+3 (variables), k (types). *)
+Definition exW : wnames :=
+  {| nmF := fun f => (4 * f)%N; nmP := fun p => (4 * p + 1)%N; nmO := fun o => (4 * o + 2)%N;
+     nmV := fun v => (4 * v + 3)%N; nmT := fun t => t |}.
+Definition ex_arity (f : N) : nat := match f with 0%N => 0 | 1%N => 2 | _ => 0 end.
+Definition exR : rtables :=
+  {| tyOf := fun s => Some s;
+     parOf := fun s => if (s mod 4 =? 1)%N then Some (s / 4)%N else None;
+     fluOf := fun s => if (s mod 4 =? 0)%N then Some ((s / 4)%N, ex_arity (s / 4)%N) else None;
+     objOf := fun s => if (s mod 4 =? 2)%N then Some (s / 4)%N else None;
+     varOf := fun s => (s / 4)%N;
+     fbool := fun f => (f =? 0)%N || (f =? 1)%N;
+     pbool := fun _ => false |}.
+Lemma m4 k r : (r < 4)%N -> ((4 * k + r) mod 4 = r)%N.
+Proof. intros H. symmetry. apply (N.mod_unique _ 4 k r H). reflexivity. Qed.
+Lemma d4 k r : (r < 4)%N -> ((4 * k + r) / 4 = k)%N.
+Proof. intros H. symmetry. apply (N.div_unique _ 4 k r H). reflexivity. Qed.
+Lemma ex_names_ok : names_ok exW exR ex_arity.
+Proof.
+  constructor; cbn [exW exR nmF nmP nmO nmV nmT tyOf parOf fluOf objOf varOf]; intros.
+  - reflexivity.
+  - rewrite m4, d4 by lia. reflexivity.
+  - replace (4 * f)%N with (4 * f + 0)%N by lia. rewrite m4, d4 by lia. reflexivity.
+  - rewrite m4, d4 by lia. reflexivity.
+  - apply d4. lia.
+  - lia.
+  - lia.
+  - lia.
+  - replace (4 * f)%N with (4 * f + 0)%N by lia. rewrite m4 by lia. reflexivity.
+  - rewrite m4 by lia. reflexivity.
+  - rewrite m4 by lia. reflexivity.
+Qed.
